@@ -87,6 +87,12 @@ impl PsEchoResponder {
         .entered();
 
         let fallible = || {
+            // Like the SDK's echo handler and the simulated routers: a request whose checksum does
+            // not verify is corrupt and must not be answered.
+            if !scmp_message.verify_checksum() {
+                anyhow::bail!("SCMP checksum does not verify");
+            }
+
             let src = scmp_message
                 .src_scion_addr()
                 .context("Failed to get source SCION address")?;
